@@ -160,6 +160,80 @@ Proof.
       * apply T3k, K3, (Hw1 2%nat).
 Qed.
 
+(** * rewind_to_chain_state *)
+Lemma zmin_fold_spec l : forall a x,
+  fold_left (fun a x => match a with None => Some x | Some y => Some (Z.min x y) end) l a = Some x ->
+  (a = Some x \/ In x l) /\ (forall y, In y l -> x <= y) /\ (forall y, a = Some y -> x <= y).
+Proof.
+  induction l as [|z r IH]; intros a x H; cbn [fold_left] in H.
+  - subst. split; [left; reflexivity|]. split; [intros y []|intros y Hy; inversion Hy; lia].
+  - destruct (IH _ _ H) as [A [B C]]. split; [|split].
+    + destruct A as [A|A]; [|right; right; exact A].
+      destruct a as [y|]; inversion A; subst.
+      * destruct (Z.min_spec z y) as [[_ E]|[_ E]]; rewrite E; [right; left; reflexivity|left; reflexivity].
+      * right. left. reflexivity.
+    + intros y [<-|Hy]; [|apply B, Hy]. destruct a as [y0|]; (eapply Z.le_trans; [apply (C _ eq_refl)|]); lia.
+    + intros y ->. eapply Z.le_trans; [apply (C _ eq_refl)|]. lia.
+Qed.
+Lemma zmin_list_in l x : zmin_list l = Some x -> In x l /\ forall y, In y l -> x <= y.
+Proof.
+  unfold zmin_list. intros H. destruct (zmin_fold_spec l None x H) as [[A|A] [B _]]; [discriminate|tauto].
+Qed.
+Lemma zmin_fold_some l : forall a, exists x,
+  fold_left (fun a x => match a with None => Some x | Some y => Some (Z.min x y) end) l (Some a) = Some x.
+Proof. induction l as [|z r IH]; intros a; cbn [fold_left]; [eauto|apply IH]. Qed.
+Lemma zmin_list_nonempty l y : In y l -> exists x, zmin_list l = Some x.
+Proof.
+  unfold zmin_list. destruct l as [|b r]; [intros []|]. intros _. cbn [fold_left]. apply zmin_fold_some.
+Qed.
+
+Lemma min_ck_ge m h x : min_ck_at_or_above m h = Some x -> h <= x.
+Proof.
+  unfold min_ck_at_or_above. intros H. apply zmin_list_in in H. destruct H as [H _].
+  apply filter_In in H. lia.
+Qed.
+Lemma min_ck_at m h : has_at m h = true -> min_ck_at_or_above m h = Some h.
+Proof.
+  unfold has_at, min_ck_at_or_above, ck_dom. intros H. apply existsb_exists in H. destruct H as [e [He1 He2]].
+  assert (Hin : In h (filter (fun x => h <=? x) (map fst m))).
+  { apply filter_In. split; [|lia]. apply in_map_iff. exists e. split; [lia|exact He1]. }
+  destruct (zmin_list_nonempty _ _ Hin) as [x Hx]. rewrite Hx. f_equal.
+  destruct (zmin_list_in _ _ Hx) as [A B]. apply filter_In in A. specialize (B h Hin). lia.
+Qed.
+
+Lemma rewind_spec depth blocks mn target w w' :
+  rewind_to_chain_state depth blocks mn target w = Ok w' ->
+  sub3 w' w /\ (w3_sorted w -> w3_sorted w') /\
+  (* a target inside the pruning window that some pool has checkpointed: afterwards no pool holds a
+     checkpoint above it *)
+  (forall maxs, zmax_list blocks = Some maxs -> target < maxs -> maxs - (depth - 1) <= target -> 0 <= target ->
+     (exists j, has_at (ck (proj_pool j w)) target = true) ->
+     forall i e, In e (ck (proj_pool i w')) -> fst e <= target).
+Proof.
+  unfold rewind_to_chain_state. destruct (zmax_list blocks) as [maxs|] eqn:El.
+  2:{ intros H. inversion H. subst. split; [intros i; tauto|]. split; [tauto|discriminate]. }
+  destruct (target <? maxs) eqn:Et.
+  2:{ intros H. inversion H. subst. split; [intros i; tauto|]. split; [tauto|]. intros m0 E0; inversion E0; lia. }
+  destruct w as [[ws wo] wi].
+  set (pf := Z.max 0 (maxs - (depth - 1))). set (tt := Z.max target pf).
+  set (fl := omin (omin (min_ck_at_or_above (ck ws) tt) (min_ck_at_or_above (ck wo) tt)) (min_ck_at_or_above (ck wi) tt)).
+  intros H. destruct (truncate_internal_spec _ _ _ _ _ _ H) as [S [A So]].
+  split; [exact S|]. split; [exact So|].
+  intros m0 E0 Hlt Hpf H0 [j Hj] i e He. inversion E0. subst m0.
+  assert (Htt : tt = target) by (unfold tt, pf; lia).
+  assert (Hfl : fl = Some target).
+  { unfold fl. rewrite Htt.
+    assert (G : forall m x, min_ck_at_or_above m target = Some x -> target <= x) by (intros; eapply min_ck_ge; eauto).
+    destruct j as [|[|j]]; cbn [proj_pool] in Hj; rewrite (min_ck_at _ _ Hj).
+    - destruct (min_ck_at_or_above (ck wo) target) as [x|] eqn:E1; destruct (min_ck_at_or_above (ck wi) target) as [y|] eqn:E2; cbn [omin];
+        try (specialize (G _ _ E1)); try (pose proof (min_ck_ge _ _ _ E2)); f_equal; lia.
+    - destruct (min_ck_at_or_above (ck ws) target) as [x|] eqn:E1; destruct (min_ck_at_or_above (ck wi) target) as [y|] eqn:E2; cbn [omin];
+        try (specialize (G _ _ E1)); try (pose proof (min_ck_ge _ _ _ E2)); f_equal; lia.
+    - destruct (min_ck_at_or_above (ck ws) target) as [x|] eqn:E1; destruct (min_ck_at_or_above (ck wo) target) as [y|] eqn:E2; cbn [omin];
+        try (specialize (G _ _ E1)); try (pose proof (min_ck_ge _ _ _ E2)); f_equal; lia. }
+  rewrite Hfl in A. apply (A maxs El Hlt i e He).
+Qed.
+
 (** * reachable states, including truncate_to_chain_state *)
 Definition sizes_true (c : c3) (target : Z) (sizes : Z * Z * Z) : Prop :=
   forall i, sizes_of i sizes = proj_chain i c target.
@@ -176,6 +250,9 @@ Inductive reach (budget chunk : Z) : c3 -> w3 -> Prop :=
     reach budget chunk c w -> sizes_true c target sizes ->
     truncate_to_chain_state budget blocks mn target sizes w = Ok w' ->
     reach budget chunk c w'
+| RC_rewind c w blocks mn target w' :
+    reach budget chunk c w -> rewind_to_chain_state budget blocks mn target w = Ok w' ->
+    reach budget chunk c w'
 | RC_reorg c c' w h :
     reach budget chunk c w -> w3_le h w -> agree3 h c c' -> reach budget chunk c' w.
 
@@ -187,7 +264,7 @@ Qed.
 Lemma reach_true budget chunk c w : reach budget chunk c w -> w3_true_p c w.
 Proof.
   induction 1 as [c|c w pol f bs w' _ IH Hp Hc Hput|c w blocks mn req h w' _ IH Ht
-                  |c w blocks mn target sizes w' _ IH Hsz Ht|c c' w h _ IH Hle Hag].
+                  |c w blocks mn target sizes w' _ IH Hsz Ht|c w blocks mn target w' _ IH Hrw|c c' w h _ IH Hle Hag].
   - destruct c as [[c1 c2] c3']. cbn. repeat split; intros h p [].
   - eapply put3_true; eauto.
   - apply w3_true_proj. intros i. pose proof (proj1 (w3_true_proj c w) IH i) as Hi.
@@ -200,17 +277,21 @@ Proof.
     intros h0 p Hin. destruct (I _ Hin) as [Ho|Eq]; [apply Hi, Ho|].
     inversion Eq. subst. rewrite (Hsz i). reflexivity.
   - apply w3_true_proj. intros i. pose proof (proj1 (w3_true_proj c w) IH i) as Hi.
+    destruct (rewind_spec _ _ _ _ _ _ Hrw) as [S _]. destruct (S i) as [_ I].
+    intros h0 p Hin. apply Hi, I, Hin.
+  - apply w3_true_proj. intros i. pose proof (proj1 (w3_true_proj c w) IH i) as Hi.
     intros h0 p Hin. rewrite (Hi h0 p Hin). f_equal. apply (Hag i). apply (Hle i (h0, p) Hin).
 Qed.
 
 Lemma reach_sorted budget chunk c w : reach budget chunk c w -> w3_sorted w.
 Proof.
   induction 1 as [c|c w pol f bs w' _ IH Hp Hc Hput|c w blocks mn req h w' _ IH Ht
-                  |c w blocks mn target sizes w' _ IH Hsz Ht|c c' w h _ IH Hle Hag].
+                  |c w blocks mn target sizes w' _ IH Hsz Ht|c w blocks mn target w' _ IH Hrw|c c' w h _ IH Hle Hag].
   - intros [|[|i]]; cbn; constructor.
   - eapply put3_sorted; eauto.
   - eapply truncate_sorted; eauto.
   - destruct (tcs_spec _ _ _ _ _ _ _ Ht) as [_ [_ S]]. apply S, IH.
+  - destruct (rewind_spec _ _ _ _ _ _ Hrw) as [_ [S _]]. apply S, IH.
   - exact IH.
 Qed.
 
@@ -219,4 +300,19 @@ Lemma put3_total_reach budget chunk c w pol f bs :
   exists w', put3 budget chunk pol f bs w = Ok w'.
 Proof.
   intros Hb Hr. apply put3_total_gen; [exact Hb|eapply reach_sorted; eauto|eapply reach_true; eauto].
+Qed.
+
+
+(** The guard "some pool has checkpointed the target" of [rewind_spec] is necessary (C06-F4). *)
+Definition rw_pool : pstate := {| ck := [(10, Some 0); (12, Some 1)]; rt := [] |}.
+Lemma rewind_unguarded_refuted :
+  exists depth blocks mn target w w' maxs i e,
+    rewind_to_chain_state depth blocks mn target w = Ok w' /\
+    zmax_list blocks = Some maxs /\ target < maxs /\ maxs - (depth - 1) <= target /\ 0 <= target /\
+    In e (ck (proj_pool i w')) /\ target < fst e.
+Proof.
+  exists 100, [10; 11; 12; 13], (None, None, None), 11, (rw_pool, rw_pool, rw_pool).
+  exists ({| ck := [(10, Some 0); (12, Some 1)]; rt := [] |}, {| ck := [(10, Some 0); (12, Some 1)]; rt := [] |},
+          {| ck := [(10, Some 0); (12, Some 1)]; rt := [] |}), 13, 0%nat, (12, Some 1).
+  split; [vm_compute; reflexivity|]. split; [reflexivity|]. cbn. repeat split; try lia. right. left. reflexivity.
 Qed.
